@@ -87,6 +87,10 @@ func propDuring(rec *stats.Rec, sc *scratch, prop string) func(*rapid.T) {
 			for _, n := range []string{"a.json", "m.yaml"} {
 				if rapid.Bool().Draw(t, fmt.Sprintf("d%d%s", i, n)) {
 					marker++
+					if rapid.IntRange(0, 4).Draw(t, fmt.Sprintf("d%d%sBad", i, n)) == 0 {
+						_ = os.WriteFile(filepath.Join(d, n), []byte("{bad"), 0o644) // a file in error from the start (the change may repair it)
+						continue
+					}
 					_ = os.WriteFile(filepath.Join(d, n), duringDoc(rapid.SampledFrom([]string{"v1.com/gpu", "v2.org/gpu"}).Draw(t, "kind"), rapid.SampledFrom([]string{"a", "b"}).Draw(t, "dev"), marker), 0o644)
 				}
 			}
@@ -116,6 +120,9 @@ func propDuring(rec *stats.Rec, sc *scratch, prop string) func(*rapid.T) {
 		name := rapid.SampledFrom([]string{"a.json", "m.yaml", "n.json"}).Draw(t, "changeName")
 		marker++
 		newDoc := duringDoc(rapid.SampledFrom([]string{"v1.com/gpu", "v2.org/gpu"}).Draw(t, "newKind"), rapid.SampledFrom([]string{"a", "b", "c"}).Draw(t, "newDev"), marker)
+		if rapid.IntRange(0, 3).Draw(t, "newContentUnparsable") == 0 {
+			newDoc = []byte("{bad") // the file becomes (or is created as) a file in error
+		}
 		p := filepath.Join(dirs[target], name)
 		_, statErr := os.Lstat(p)
 		effective := kind != "remove" || statErr == nil
@@ -224,4 +231,8 @@ func TestC12During(t *testing.T) {
 
 func TestC11During(t *testing.T) {
 	rapid.Check(t, propDuring(stats.For("C11", "during"), newScratch(t), "C11"))
+}
+
+func TestC13During(t *testing.T) {
+	rapid.Check(t, propDuring(stats.For("C13", "during"), newScratch(t), "C13"))
 }
